@@ -113,7 +113,7 @@ func canonStr(v interface{}) string {
 
 type wgen struct{ p *prng.R }
 
-var c12Strings = []string{"", "a", "b", "set", "map", "uuid", "named-uuid", "x y", "é\"\\", "row1"}
+var c12Strings = []string{"", "a", "b", "set", "map", "uuid", "named-uuid", "x y", "é\"\\", "row1", "\x01", "tab\tnl\n", "\v\x7f", " ", "\U0001F600", "a\x00b"}
 
 func (g wgen) atom(kind int) interface{} {
 	switch kind {
